@@ -7,6 +7,7 @@ reported path is a real CFG path under the abstraction.  Calls are resolved thro
 the linked program; a rule supplies hooks that turn calls into events and give
 nondeterministic result sets to primitives.  See DESIGN.md Appendix A.3.
 """
+import re
 import itertools
 from collections import deque
 
@@ -365,6 +366,15 @@ class Engine:
             return fs(c)
         return TOP
 
+    def stored_or_input(self, E, p):
+        """the value a read-modify-write (++, +=) starts from: what the path holds, or the input cell the hooks supply for it"""
+        v = E.store.get(p, TOP)
+        if v is TOP and p not in E.store:
+            v = self.hooks.materialize(E, p)
+            if v is not TOP:
+                E.set(p, v)
+        return v
+
     def trackable(self, path):
         if path is None or '[*]' in path:
             return False
@@ -566,6 +576,10 @@ class Engine:
                                 outs.append(E2)
                             return outs
                         v = self.hooks.materialize(E, p)
+                        if v is TOP and any(re.match(r_, p) for r_ in getattr(self.hooks, 'heap_tables', ())):
+                            # a table allocated at start-up and never moved: its pointer is the address of its own first element,
+                            # so that jo[k].f, (jo + k)->f and p = &jo[k]; p->f all name the cell jo[k].f
+                            v = fs(('&', p + '[0]'))
                         if v is not TOP:
                             E.set(p, v)
                     # a byte cell read as char is signed, read as unsigned char it is 0..255, whichever way it was stored
@@ -604,7 +618,7 @@ class Engine:
                 pass  # lvalue
             elif op in ('pre++', 'pre--', 'post++', 'post--'):
                 p = self.canon(E, sub)
-                old = E.store.get(p, TOP) if p and self.trackable(p) else TOP
+                old = self.stored_or_input(E, p) if p and self.trackable(p) else TOP
                 new = TOP
                 if p and self.trackable(p):
                     # an address into an array steps exactly (bounded: beyond element 256 it becomes unknown)
@@ -680,7 +694,7 @@ class Engine:
             if x.op != '=':
                 op = x.op[:-1]
                 if p and self.trackable(p) and (self.hooks.precise_arith(p) or self.bounded_counter(p)):
-                    rv = self.binset(op, E.store.get(p, TOP), rv, x.type)
+                    rv = self.binset(op, self.stored_or_input(E, p), rv, x.type)
                 else:
                     rv = TOP
             if p is not None:
